@@ -7,6 +7,8 @@ import (
 	"fmt"
 	"math"
 	"math/big"
+	"sort"
+	"strings"
 
 	"github.com/zclconf/go-cty/cty"
 	ctyjson "github.com/zclconf/go-cty/cty/json"
@@ -25,18 +27,24 @@ func (Driver) Info() core.Info {
 	return core.Info{
 		Title: "JSON encoding round-trips values and agrees with plain JSON",
 		Rule: "value case = (wholly known, unmarked, capsule-free value of a generated type of depth<=3 (thorough: <=4) with nulls at any depth, empty collections, " +
-			"numbers from gen.NumberPool plus fresh ones, non-ASCII / normalizable strings and keys; constraint in {exact type, random placeholder replacement, root or heavy replacement}), " +
-			"classified k0..k3; every case runs Marshal -> json.Valid -> plain encoding/json decoding mirrored against the value -> Unmarshal -> type and model equality, k0 also through SimpleJSONValue. " +
-			"poison case = the same with one part replaced by an unknown value, a marked value or an infinity: must be an error. " +
-			"document case = JSON text rendered from a grammar (nested nulls, number spellings with <=40 digits and |exp|<=350, escapes, NFC/NFD twins, repeated member names) -> ImpliedType vs structural type -> Unmarshal -> Marshal compared up to key order, number spelling, NFC. " +
+			"numbers from gen.NumberPool plus fresh ones, non-ASCII / normalizable strings, strings and map keys that need every kind of JSON escaping or collide with the wrapper's member names; " +
+			"up to three distinct constraints: the exact type, a light placeholder replacement or the root placeholder, a heavy replacement below the root), " +
+			"classified k0, k1, k2, k3/placeholder-below-null-or-empty-part, k3/members-resolve-to-different-types (gen.ConstraintClass, gen.WirePrediction); " +
+			"every case runs Marshal -> json.Valid -> plain encoding/json decoding mirrored against the value (wrapper exactly at the dynamic positions, documented type syntax read independently) -> Unmarshal -> same type and documented equality; " +
+			"the exact-type case also goes through SimpleJSONValue inside a struct; in class k3 the decoded type must be exactly what the wire carries and every part that reached the wire must agree. " +
+			"poison case = the same with one part replaced by an unknown value (any refinement), a marked value or an infinity (5 representations): must be an error without bytes, also through SimpleJSONValue. " +
+			"document case = JSON text rendered from a grammar (nested nulls, number spellings with <=40 digits and |exp|<=350, all escape forms, NFC/NFD twins in strings and names, repeated member names, random whitespace) " +
+			"-> ImpliedType vs structural type -> Unmarshal -> Marshal compared up to key order, number spelling, NFC; the same through SimpleJSONValue.UnmarshalJSON/MarshalJSON. " +
+			"A fixed corpus (boundary numbers of every class alone and under every single-placeholder constraint, escapes, nulls of every kind, witnesses of F-32/F-33/F-34 and of the non-NFC-name defect) runs in batch 0. " +
 			"distinct = hash of (value, constraint) or of the document bytes; non-trivial = every stage up to the final comparison was executed on an in-domain input",
 		Assumptions: []string{
-			"mon.ModelEqual is the documented equality (whole numbers exact, other numbers by shortest round-trip text, strings after NFC, sets as sets)",
-			"the plain reading of the output uses encoding/json only; a number token agrees with the value if it parses to it at the value's own precision",
+			"mon.ModelEqual / mon.RoundTripDiff are the documented equality (whole numbers exact, other numbers by shortest round-trip text, strings after NFC, sets as sets); both are evaluated and must agree",
+			"the plain reading of the output uses encoding/json only; a number token mirrors a number if, as an exact rational, it is the number itself or its shortest round-trip decimal text (math/big's notion, on which the documented equality is built)",
 			"documents repeating a member name (after NFC) with different values are outside the property's domain: only no-panic is demanded for them",
-			"lone surrogate escapes and invalid UTF-8 are not generated (cty documents invalid UTF-8 as undefined)",
+			"'representable numbers' in documents: at most 40 significant digits and a decimal exponent within +-350 (the decoder keeps 512 bits)",
+			"lone surrogate escapes and invalid UTF-8 are not generated (cty documents invalid UTF-8 as undefined); values hold numbers of at most 512 bits of precision",
 		},
-		MinNontrivial: 5000,
+		MinNontrivial: 20000,
 	}
 }
 
@@ -84,7 +92,53 @@ func genValue(c *core.Ctx, r *core.Rand) cty.Value {
 	to := gen.TypeOpts{Dynamic: r.Chance(1, 3), TwinKeys: r.Bool()}
 	ty := gen.Type(r, maxDepth(c, r), to).Cty()
 	vo := gen.ValueOpts{MaxLen: 3, LongStr: true, TwinKeys: r.Bool(), NullPct: []int{0, 5, 15}[r.Intn(3)], SmallNums: r.Chance(1, 6)}
-	return gen.Value(r, ty, vo)
+	v := gen.Value(r, ty, vo)
+	if r.Chance(1, 3) {
+		v = hostileText(r, v)
+	}
+	return v
+}
+
+// nastyKeys need escaping in JSON, collide with the type wrapper's member
+// names, or are awkward for sorting and normalization. All are in NFC.
+var nastyKeys = []string{"q\"uote", "back\\slash", "new\nline", "tab\t", "\u0000", "\u001f", "\u007f", "<&>", "\u2028", "value", "type", "\U0001F44D\U0001F3FD", "\uac01", "\u1e69", "Z", "a b", "/", "\ufffd", "\U0010FFFF", "{}", "[", ","}
+
+// hostileText swaps some strings for ones that need every kind of JSON
+// escaping and renames some map keys (and the attributes of a root object) to
+// nastyKeys. The type of every part that sits in a collection is unchanged.
+func hostileText(r *core.Rand, v cty.Value) cty.Value {
+	return gen.RewriteParts(v, func(p cty.Value, path string, _ bool) (cty.Value, bool) {
+		if !p.IsKnown() || p.IsNull() {
+			return cty.NilVal, false
+		}
+		ty := p.Type()
+		switch {
+		case ty == cty.String && r.Chance(1, 4):
+			return cty.StringVal(docStringPool[r.Intn(len(docStringPool))]), true
+		case ty.IsMapType() && p.LengthInt() > 0 && r.Chance(1, 2):
+			m := map[string]cty.Value{}
+			for it := p.ElementIterator(); it.Next(); {
+				k, ev := it.Element()
+				ks := k.AsString()
+				if r.Chance(1, 2) {
+					ks = nastyKeys[r.Intn(len(nastyKeys))]
+				}
+				m[ks] = ev // a collision just drops a member
+			}
+			return cty.MapVal(m), true
+		case ty.IsObjectType() && path == "" && p.LengthInt() > 0 && r.Chance(1, 2):
+			m := map[string]cty.Value{}
+			for _, k := range model.TNodeOf(ty).AttrNames() {
+				ks := k
+				if r.Chance(1, 2) {
+					ks = nastyKeys[r.Intn(len(nastyKeys))]
+				}
+				m[ks] = p.GetAttr(k)
+			}
+			return cty.ObjectVal(m), true
+		}
+		return cty.NilVal, false
+	})
 }
 
 func valueCase(c *core.Ctx, idx int64) {
@@ -103,11 +157,25 @@ func valueCase(c *core.Ctx, idx int64) {
 		return
 	}
 	t := v.Type()
-	cons := []cty.Type{t, gen.DeriveConstraint(r, t, 20)}
-	if r.Chance(1, 4) {
-		cons = append(cons, cty.DynamicPseudoType)
-	} else {
-		cons = append(cons, gen.DeriveConstraintBelowRoot(r, t, 50))
+	// three different constraints where the type admits them: the exact type, a light
+	// replacement (or the root placeholder), a heavy replacement below the root
+	cons := []cty.Type{t}
+	add := func(con cty.Type) bool {
+		for _, x := range cons {
+			if x.Equals(con) {
+				return false
+			}
+		}
+		cons = append(cons, con)
+		return true
+	}
+	if !add(gen.DeriveConstraint(r, t, 20)) {
+		add(cty.DynamicPseudoType)
+	}
+	if r.Chance(1, 4) || !add(gen.DeriveConstraintBelowRoot(r, t, 50)) {
+		if !add(cty.DynamicPseudoType) && !add(gen.DeriveConstraintBelowRoot(r, t, 80)) {
+			c.Count("constraint:no-third-constraint-for-this-type")
+		}
 	}
 	for k, con := range cons {
 		roundTrip(c, idx, v, con, k == 0)
@@ -169,7 +237,7 @@ func poison(r *core.Rand, v cty.Value) (cty.Value, string) {
 	}
 	n := gen.CountParts(v)
 	target, seen := r.Intn(n), 0
-	out := gen.RewriteParts(v, func(p cty.Value, _ string, inColl bool) (cty.Value, bool) {
+	out := gen.RewriteParts(v, func(p cty.Value, _ string, _ bool) (cty.Value, bool) {
 		seen++
 		if seen-1 != target {
 			return cty.NilVal, false
@@ -180,7 +248,12 @@ func poison(r *core.Rand, v cty.Value) (cty.Value, string) {
 		if p.Type() == cty.DynamicPseudoType {
 			return cty.DynamicVal, true
 		}
-		return gen.AdmittingUnknown(r, p, r.Bool(), !inColl && r.Chance(1, 4)), true
+		u := gen.AdmittingUnknown(r, p, r.Bool(), false) // never DynamicVal for a typed part: it would change the type of an enclosing collection member
+		if u.IsKnown() {
+			// a refinement that pins the length of a collection to 0 collapses to the known empty collection
+			u = cty.UnknownVal(p.Type())
+		}
+		return u, true
 	})
 	return out, kind
 }
@@ -202,7 +275,7 @@ func poisonCase(c *core.Ctx, idx int64, v cty.Value, con cty.Type, kind string) 
 	c.Distinct(desc(), true)
 	switch {
 	case o.Panicked:
-		c.Violate("json.Marshal", "panic: "+core.PanicClass(o.PanicMsg), class+"/"+kind, desc(), o.PanicMsg+"\n"+o.Stack)
+		c.Violate("json.Marshal", panicFacet(o.PanicMsg), class+"/"+kind, desc(), o.PanicMsg+"\n"+o.Stack)
 	case err == nil:
 		c.Violate("json.Marshal", "value JSON cannot represent was encoded without an error", class+"/"+kind, desc(), fmt.Sprintf("bytes %s", clipStr(string(bs), 400)))
 	case len(bs) != 0:
@@ -266,32 +339,173 @@ func fitsInt64(f *big.Float) bool {
 	return acc == big.Exact
 }
 
-// diffClass narrows the class of a value mismatch: a whole number that comes
-// back as another integer although its own text is not exact is F-32's class.
-func diffClass(class string, d *mon.RTDiff) string {
-	if d != nil && d.Kind == "number:whole" && d.Orig != cty.NilVal && d.Orig.Type() == cty.Number && d.Orig.IsKnown() && !d.Orig.IsNull() &&
-		mon.WholeTextInexact(d.Orig.AsBigFloat()) {
-		return class + "/whole-number-with-inexact-shortest-text"
+// wholeTextImage returns v with every whole number whose shortest round-trip
+// text denotes another integer replaced by that other integer (parsed the way
+// cty parses number text): what a codec that writes shortest text and reads
+// at 512 bits turns v into. Independent of the json package.
+func wholeTextImage(v cty.Value) cty.Value {
+	return gen.RewriteParts(v, func(p cty.Value, _ string, _ bool) (cty.Value, bool) {
+		if p.IsKnown() && !p.IsNull() && p.Type() == cty.Number {
+			if f := p.AsBigFloat(); mon.WholeTextInexact(f) {
+				g, _, err := big.ParseFloat(f.Text('f', -1), 10, 512, big.ToNearestEven)
+				if err == nil {
+					return cty.NumberVal(g), true
+				}
+			}
+			return p, true
+		}
+		return cty.NilVal, false
+	})
+}
+
+// diffClass narrows the class of a value mismatch: if the decoded value is
+// exactly the original with its whole numbers replaced by what their shortest
+// text denotes, the mismatch is F-32's class and nothing else.
+func diffClass(class string, v, got cty.Value) string {
+	if mon.HasWholeTextInexact(v) {
+		img := wholeTextImage(v)
+		if strings.HasPrefix(class, "k3") {
+			if hollowDiff(img, got, "") == "" {
+				return class + "/whole-number-with-inexact-shortest-text"
+			}
+		} else if img.Type().Equals(got.Type()) && mon.RoundTripDiff(img, got, false) == nil {
+			return class + "/whole-number-with-inexact-shortest-text"
+		}
 	}
 	return class
 }
 
+// panicFacet keeps the facet of the constructor panics stable (core.PanicClass
+// cuts type names in a way that depends on the types involved).
+func panicFacet(msg string) string {
+	for _, k := range []string{"list", "set", "map"} {
+		if strings.HasPrefix(msg, "inconsistent "+k+" element types") {
+			return "panic: inconsistent " + k + " element types"
+		}
+	}
+	return "panic: " + core.PanicClass(msg)
+}
+
+// subClass refines k3 by what the wire format is able to carry (gen.WirePrediction).
+func subClass(v cty.Value, con cty.Type) (class string, resolved cty.Type, mixed bool) {
+	class = gen.ConstraintClass(v, con)
+	if class != "k3" {
+		return class, v.Type(), false
+	}
+	resolved, mixed = gen.WirePrediction(v, con)
+	if mixed {
+		return "k3/members-resolve-to-different-types", resolved, true
+	}
+	return "k3/placeholder-below-null-or-empty-part", resolved, false
+}
+
+// hollowDiff compares the original with a decoded value whose type differs only
+// below null or empty parts (class k3): nullness, emptiness, keys and every
+// member that did reach the wire must still agree. "" when they do.
+func hollowDiff(a, b cty.Value, path string) string {
+	if !b.IsKnown() {
+		return fmt.Sprintf("at %q: decoded part is unknown", path)
+	}
+	if a.IsNull() || b.IsNull() {
+		if a.IsNull() != b.IsNull() {
+			return fmt.Sprintf("at %q: nullness differs: %#v vs %#v", path, a, b)
+		}
+		return ""
+	}
+	ta, tb := a.Type(), b.Type()
+	switch {
+	case ta.IsPrimitiveType():
+		if !tb.Equals(ta) {
+			return fmt.Sprintf("at %q: %#v came back as %#v", path, a, b)
+		}
+		if d := mon.RoundTripDiff(a, b, false); d != nil {
+			return fmt.Sprintf("at %q: %s", path, d.Detail)
+		}
+	case ta.IsListType() || ta.IsTupleType():
+		if ta.IsListType() != tb.IsListType() || ta.IsTupleType() != tb.IsTupleType() || a.LengthInt() != b.LengthInt() {
+			return fmt.Sprintf("at %q: %#v came back as %#v", path, a, b)
+		}
+		as, bs := a.AsValueSlice(), b.AsValueSlice()
+		for i := range as {
+			if d := hollowDiff(as[i], bs[i], fmt.Sprintf("%s[%d]", path, i)); d != "" {
+				return d
+			}
+		}
+	case ta.IsSetType():
+		if !tb.IsSetType() || a.LengthInt() != b.LengthInt() {
+			return fmt.Sprintf("at %q: %#v came back as %#v", path, a, b)
+		}
+		as, bs := a.AsValueSlice(), b.AsValueSlice()
+		if !matchHollow(as, bs, make([]bool, len(bs)), 0) {
+			return fmt.Sprintf("at %q: set %#v came back as %#v", path, a, b)
+		}
+	case ta.IsMapType() || ta.IsObjectType():
+		if ta.IsMapType() != tb.IsMapType() || ta.IsObjectType() != tb.IsObjectType() || a.LengthInt() != b.LengthInt() {
+			return fmt.Sprintf("at %q: %#v came back as %#v", path, a, b)
+		}
+		am, bm := a.AsValueMap(), b.AsValueMap()
+		for _, k := range sortedValKeys(am) {
+			av := am[k]
+			bv, ok := bm[k]
+			if !ok {
+				return fmt.Sprintf("at %q: key %q missing", path, k)
+			}
+			if d := hollowDiff(av, bv, fmt.Sprintf("%s[%q]", path, k)); d != "" {
+				return d
+			}
+		}
+	}
+	return ""
+}
+
+func sortedValKeys(m map[string]cty.Value) []string {
+	ks := make([]string, 0, len(m))
+	for k := range m {
+		ks = append(ks, k)
+	}
+	sort.Strings(ks)
+	return ks
+}
+
+func matchHollow(as, bs []cty.Value, used []bool, i int) bool {
+	if i == len(as) {
+		return true
+	}
+	for j := range bs {
+		if used[j] {
+			continue
+		}
+		if hollowDiff(as[i], bs[j], "") == "" {
+			used[j] = true
+			if matchHollow(as, bs, used, i+1) {
+				return true
+			}
+			used[j] = false
+		}
+	}
+	return false
+}
+
 // roundTrip is the oracle for one (value, constraint) pair of the property's domain.
 func roundTrip(c *core.Ctx, idx int64, v cty.Value, con cty.Type, simple bool) {
-	class := gen.ConstraintClass(v, con)
+	class, resolved, mixed := subClass(v, con)
 	desc := func() string { return describe(v, con, class) }
 	c.Begin(idx, desc)
 	c.Count("class:" + class)
 	if class == "k0" {
 		countShape(c, v)
 	}
+	if n := gen.CountPlaceholders(v.Type(), con); n > 0 {
+		c.CountN("placeholders-introduced", int64(n))
+	}
 	var bs []byte
 	var err error
 	o := core.Guard(func() { bs, err = ctyjson.Marshal(v, con) })
 	c.Eval(1)
+	c.Count("op:Marshal")
 	if o.Panicked {
 		c.Distinct(desc(), false)
-		c.Violate("json.Marshal", "panic: "+core.PanicClass(o.PanicMsg), class, desc(), o.PanicMsg+"\n"+o.Stack)
+		c.Violate("json.Marshal", panicFacet(o.PanicMsg), class, desc(), o.PanicMsg+"\n"+o.Stack)
 		return
 	}
 	if err != nil {
@@ -325,23 +539,51 @@ func roundTrip(c *core.Ctx, idx int64, v cty.Value, con cty.Type, simple bool) {
 	var got cty.Value
 	o = core.Guard(func() { got, err = ctyjson.Unmarshal(bs, con) })
 	c.Eval(1)
+	c.Count("op:Unmarshal")
 	if o.Panicked {
 		c.Distinct(desc(), false)
-		c.Violate("json.Unmarshal", "panic: "+core.PanicClass(o.PanicMsg), class, desc(), "bytes "+clipStr(string(bs), 600)+"\n"+o.PanicMsg+"\n"+o.Stack)
+		c.Violate("json.Unmarshal", panicFacet(o.PanicMsg), class, desc(), "bytes "+clipStr(string(bs), 600)+"\n"+o.PanicMsg+"\n"+o.Stack)
 		return
 	}
 	if err != nil {
-		c.Distinct(desc(), false)
-		c.Violate("json.Unmarshal", "error on the encoder's own output", class, desc(), "bytes "+clipStr(string(bs), 600)+"; "+err.Error())
+		c.Distinct(desc(), mixed) // for mixed members this is the whole observable outcome
+		c.Count("outcome:unmarshal-error")
+		facet := "error on the encoder's own output"
+		if mixed && strings.Contains(err.Error(), "elements must have the same type") {
+			// the one outcome the format leaves to the decoder in this class (see NOTES.md, F-115b)
+			facet += ": collection members decoded to different types"
+		}
+		c.Violate("json.Unmarshal", facet, class, desc(), "bytes "+clipStr(string(bs), 600)+"; "+err.Error())
 		return
 	}
 	c.Distinct(desc(), true)
 	if w := mon.WellFormed(got); w != "" {
 		c.CrossNote("C06", "json.Unmarshal: "+w, desc())
 	}
+	if herr := cty.VerifWellFormed(got); herr != nil {
+		c.CrossNote("C06", "json.Unmarshal (hook): "+core.PanicClass(herr.Error()), desc())
+	}
 	c.Count("clause:decoded-type-is-the-original-type")
 	if !model.TypeEq(model.TNodeOf(got.Type()), model.TNodeOf(v.Type())) || !got.Type().Equals(v.Type()) {
-		c.Violate("json.Unmarshal", "decoded value has another type than the original", class, desc(),
+		cl := class
+		if strings.HasPrefix(class, "k3/") {
+			// the narrow (listable) class is kept only when the decoded type is exactly what the
+			// wire carries and everything that did reach the wire still agrees
+			c.Count("clause:k3-decoded-type-is-what-the-wire-carries")
+			switch {
+			case mixed:
+				cl = "k3/members-resolve-to-different-types,decoded"
+			case !got.Type().Equals(resolved):
+				cl = "k3/decoded-type-is-not-what-the-wire-carries"
+			default:
+				c.Count("clause:k3-parts-on-the-wire-agree")
+				if d := hollowDiff(v, got, ""); d != "" {
+					c.Violate("json.Unmarshal", "decoded value differs from the original beyond the types of null or empty parts", diffClass("k3", v, got), desc(),
+						fmt.Sprintf("%s; decoded %#v", d, got))
+				}
+			}
+		}
+		c.Violate("json.Unmarshal", "decoded value has another type than the original", cl, desc(),
 			fmt.Sprintf("original type %#v, decoded type %#v; bytes %s", v.Type(), got.Type(), clipStr(string(bs), 400)))
 	} else {
 		c.Count("clause:decoded-value-equals-the-original")
@@ -351,8 +593,15 @@ func roundTrip(c *core.Ctx, idx int64, v cty.Value, con cty.Type, simple bool) {
 			if d != nil {
 				kind = d.Kind
 			}
-			c.Violate("json.Unmarshal", "decoded value differs from the original: "+kind, diffClass(class, d), desc(),
+			dc := diffClass(class, v, got)
+			if dc != class {
+				kind = "number:whole"
+			}
+			c.Violate("json.Unmarshal", "decoded value differs from the original: "+kind, dc, desc(),
 				fmt.Sprintf("%s; decoded %#v", d.String(), got))
+		} else if d := mon.RoundTripDiff(v, got, false); d != nil {
+			// the two formulations of the documented equality must agree
+			c.Violate("json.Unmarshal", "decoded value differs from the original: "+d.Kind, class+"/comparators-disagree", desc(), d.String())
 		}
 	}
 	if simple {
@@ -396,8 +645,10 @@ func simpleCase(c *core.Ctx, v cty.Value, desc func() string) {
 	}
 	if kind, detail := simpleDiff(v, h.Value.Value, ""); kind != "" {
 		class := "k0"
-		if kind == "number:whole" && mon.HasWholeTextInexact(v) {
-			class = "k0/whole-number-with-inexact-shortest-text"
+		if mon.HasWholeTextInexact(v) {
+			if k2, _ := simpleDiffImg(v, h.Value.Value, "", true); k2 == "" {
+				class, kind = "k0/whole-number-with-inexact-shortest-text", "number:whole"
+			}
 		}
 		c.Violate("json.SimpleJSONValue", "decoded data differs from the original data: "+kind, class, desc(), detail+fmt.Sprintf("; decoded %#v", h.Value.Value))
 	}
@@ -406,7 +657,11 @@ func simpleCase(c *core.Ctx, v cty.Value, desc func() string) {
 // simpleDiff compares the original with its type-lossy image: lists, sets and
 // tuples come back as tuples, maps and objects as objects, nulls as nulls of
 // the dynamic pseudo-type, primitives unchanged.
-func simpleDiff(a, b cty.Value, path string) (string, string) {
+func simpleDiff(a, b cty.Value, path string) (string, string) { return simpleDiffImg(a, b, path, false) }
+
+// simpleDiffImg with img set compares every whole number of a through its
+// shortest-text image (used only to recognise F-32's class).
+func simpleDiffImg(a, b cty.Value, path string, img bool) (string, string) {
 	if !b.IsKnown() {
 		return "unknown", fmt.Sprintf("at %q: decoded part is unknown", path)
 	}
@@ -425,6 +680,9 @@ func simpleDiff(a, b cty.Value, path string) (string, string) {
 		if !b.Type().Equals(t) {
 			return "primitive-type", fmt.Sprintf("at %q: %#v came back as %#v", path, a, b)
 		}
+		if img {
+			a = wholeTextImage(a)
+		}
 		if d := mon.RoundTripDiff(a, b, false); d != nil {
 			return d.Kind, fmt.Sprintf("at %q: %s", path, d.Detail)
 		}
@@ -437,13 +695,13 @@ func simpleDiff(a, b cty.Value, path string) (string, string) {
 		}
 		as, bs := a.AsValueSlice(), b.AsValueSlice()
 		if t.IsSetType() {
-			if !matchSimple(as, bs, make([]bool, len(bs)), 0) {
+			if !matchSimple(as, bs, make([]bool, len(bs)), 0, img) {
 				return "set-members", fmt.Sprintf("at %q: %#v came back as %#v", path, a, b)
 			}
 			return "", ""
 		}
 		for i := range as {
-			if k, d := simpleDiff(as[i], bs[i], fmt.Sprintf("%s[%d]", path, i)); k != "" {
+			if k, d := simpleDiffImg(as[i], bs[i], fmt.Sprintf("%s[%d]", path, i), img); k != "" {
 				return k, d
 			}
 		}
@@ -455,12 +713,13 @@ func simpleDiff(a, b cty.Value, path string) (string, string) {
 		if len(am) != len(bm) {
 			return "keys", fmt.Sprintf("at %q: %d keys came back as %d", path, len(am), len(bm))
 		}
-		for k, av := range am {
+		for _, k := range sortedValKeys(am) {
+			av := am[k]
 			bv, ok := bm[k]
 			if !ok {
 				return "keys", fmt.Sprintf("at %q: key %q missing", path, k)
 			}
-			if kk, d := simpleDiff(av, bv, fmt.Sprintf("%s[%q]", path, k)); kk != "" {
+			if kk, d := simpleDiffImg(av, bv, fmt.Sprintf("%s[%q]", path, k), img); kk != "" {
 				return kk, d
 			}
 		}
@@ -468,7 +727,7 @@ func simpleDiff(a, b cty.Value, path string) (string, string) {
 	return "", ""
 }
 
-func matchSimple(as, bs []cty.Value, used []bool, i int) bool {
+func matchSimple(as, bs []cty.Value, used []bool, i int, img bool) bool {
 	if i == len(as) {
 		return true
 	}
@@ -476,9 +735,9 @@ func matchSimple(as, bs []cty.Value, used []bool, i int) bool {
 		if used[j] {
 			continue
 		}
-		if k, _ := simpleDiff(as[i], bs[j], ""); k == "" {
+		if k, _ := simpleDiffImg(as[i], bs[j], "", img); k == "" {
 			used[j] = true
-			if matchSimple(as, bs, used, i+1) {
+			if matchSimple(as, bs, used, i+1, img) {
 				return true
 			}
 			used[j] = false
